@@ -538,6 +538,20 @@ func c41RunHist(t testing.TB, sys ActorSystem, h c41Hist) (res c41Result) {
 			msg = b
 		case "readreq":
 			msg = &internalpb.CRDTReadRequest{Key: badKey(m.Kind, m.K), FromNode: "zz"}
+		case "mergeall":
+			// oracle helper, no replicator involved: the join (crdt Merge) of every replica's current value of the key
+			var acc crdt.ReplicatedData
+			for _, rp := range reps {
+				if d, ok := rp.r.store[fmt.Sprintf("k%d", m.K)]; ok && d != nil {
+					if acc == nil {
+						acc = d.Clone()
+					} else {
+						acc = acc.Merge(d)
+					}
+				}
+			}
+			res.Steps = append(res.Steps, c41Step{State: v.snapshot(), Resp: c41T(int64(3), c41Val(acc)), Lo: lo, Hi: lo, Out: []any{}})
+			continue
 		default:
 			panic("unknown message kind " + m.M)
 		}
